@@ -70,6 +70,9 @@ enum Step {
 }
 
 pub struct RefResult {
+    pub op_hist: Vec<u32>,
+    /// a balance would have exceeded 2^256-1: the case is outside the specification's domain
+    pub out_of_domain: bool,
     pub outcome: TxOutcome,
     pub post: World,
     pub steps: u64,
@@ -150,6 +153,8 @@ pub struct Machine<'a> {
     pre_world: World,
     eff_price: U256,
     pub steps: u64,
+    pub overflowed: bool,
+    pub op_hist: Vec<u32>,
 }
 
 impl<'a> Machine<'a> {
@@ -181,7 +186,14 @@ impl<'a> Machine<'a> {
     }
     fn add_balance(&mut self, a: Address, v: U256) {
         let e = self.st.world.accounts.entry(a).or_default();
-        e.balance = e.balance.wrapping_add(v);
+        match e.balance.checked_add(v) {
+            Some(b) => e.balance = b,
+            None => {
+                // a balance above 2^256-1 is outside the specification's domain (total supply)
+                self.overflowed = true;
+                e.balance = e.balance.wrapping_add(v);
+            }
+        }
     }
     fn storage(&self, a: &Address, k: &U256) -> U256 {
         self.acct(a).and_then(|x| x.storage.get(k).copied()).unwrap_or_default()
@@ -278,6 +290,7 @@ impl<'a> Machine<'a> {
             return Ok(Step::Done { ok: true, revert: false, output: vec![] });
         }
         let op = f.code[f.pc];
+        self.op_hist[op as usize] += 1;
         macro_rules! oog {
             ($e:expr) => {
                 if !$e {
@@ -1267,7 +1280,7 @@ pub fn validate(world: &World, spec: SpecId, block: &BlockSpec, tx: &TxSpec) -> 
 /// Execute one transaction on `world` (mutated to the post-state when accepted).
 pub fn ref_transact(world: &mut World, spec: SpecId, block: &BlockSpec, tx: &TxSpec) -> RefResult {
     if let Some(r) = validate(world, spec, block, tx) {
-        return RefResult { outcome: TxOutcome::Rejected(r.to_string()), post: world.clone(), steps: 0 };
+        return RefResult { op_hist: vec![], out_of_domain: false, outcome: TxOutcome::Rejected(r.to_string()), post: world.clone(), steps: 0 };
     }
     let is = |s: SpecId| spec >= s;
     let base = U256::from(block.basefee);
@@ -1276,7 +1289,7 @@ pub fn ref_transact(world: &mut World, spec: SpecId, block: &BlockSpec, tx: &TxS
         None => tx.gas_price,
     };
     let st = St { world: world.clone(), accessed_addrs: BTreeSet::new(), accessed_slots: BTreeSet::new(), transient: BTreeMap::new(), logs: vec![], refund: 0, touched: BTreeSet::new(), selfdestructs: BTreeSet::new(), created: BTreeSet::new() };
-    let mut m = Machine { spec, block, tx, st, originals: BTreeMap::new(), pre_world: world.clone(), eff_price, steps: 0 };
+    let mut m = Machine { spec, block, tx, st, originals: BTreeMap::new(), pre_world: world.clone(), eff_price, steps: 0, overflowed: false, op_hist: vec![0; 256] };
     let (intrinsic, floor) = crate::props::online::intrinsic_gas(spec, tx);
     let sender = tx.caller;
     let sender_nonce = m.acct(&sender).map(|a| a.nonce).unwrap_or(0);
@@ -1415,6 +1428,8 @@ pub fn ref_transact(world: &mut World, spec: SpecId, block: &BlockSpec, tx: &TxS
     *world = m.st.world.clone();
     let class = if ok { "success" } else if revert { "revert" } else { "halt" };
     RefResult {
+        op_hist: m.op_hist.clone(),
+        out_of_domain: m.overflowed,
         outcome: TxOutcome::Executed { class, reason: String::new(), gas_used, gas_refunded: if ok { reported_refund } else { 0 }, output: if ok || revert { output } else { vec![] }, logs, created },
         post: world.clone(),
         steps: m.steps,
